@@ -61,7 +61,11 @@ Definition the_decls (c : case) : list decl := decls (c_groups c) (c_trailing c)
 
 (* ---------- model ---------- *)
 Definition model_table (c : case) : result typetable :=
-  parse_types (match c_raw c with Some toks => toks | None => render (c_groups c) (c_trailing c) end).
+  match c_raw c with
+  | Some toks => parse_types_code toks      (* the local copy with the '- (x)' corner (Model/TypeSites.v); = parse_types on every
+                                               rendered section (Proofs/C06_Trajectory.parse_types_code_render_lemma) *)
+  | None => parse_types (render (c_groups c) (c_trailing c))
+  end.
 
 Definition model_types (c : case) : obs string :=
   obs_of_result (do T <- model_table c; Ok (join "," (sort_strings (type_names T)))).
@@ -149,7 +153,7 @@ Definition starts_with (pre s : string) : bool := String.eqb (substring 0 (Strin
 Definition is_rep_kind (k : string) : bool := starts_with "rep" k.
 Definition rep_arity (k : string) : nat := if starts_with "rep3" k then 3 else 2.
 Definition rep_what (k : string) : string :=            (* the text after the first '_' *)
-  if starts_with "rep3m_" k then substring 6 (String.length k) k else substring 5 (String.length k) k.
+  if starts_with "rep3m_" k || starts_with "rep3e_" k then substring 6 (String.length k) k else substring 5 (String.length k) k.
 
 Fixpoint tuples (names : list string) (n : nat) : list (list string) :=
   match n with
@@ -161,7 +165,8 @@ Definition cube (names : list string) (n : nat) (f : string -> list string -> as
   t2s (flat_map (fun t => map (fun rs => f t rs) (tuples names n)) names).
 
 Definition rep_args (k who : string) : list string :=
-  if starts_with "rep3m" k then [who; "zz"; who] else repeat who (rep_arity k).
+  if starts_with "rep3m" k then [who; "zz"; who]
+  else if starts_with "rep3e" k then [who; who; "zz"] else repeat who (rep_arity k).
 Definition rep_symbol (k : string) (rs : list string) : string :=
   (if Nat.eqb (rep_arity k) 2 then "b_" else "c_") +++ join "_" rs.
 
@@ -308,16 +313,18 @@ Definition spec_edges (c : case) : string :=
   show_edges (ds ++ map (fun p => (p, "object"))
                         (filter (fun p => negb (str_in p (map fst ds)) && negb (String.eqb p "object")) (map snd ds))).
 
-(* kinds the property speaks about; 'tfact' (trajectory facts are not type-checked at all) is compared with the
-   model only *)
-Definition judged_kind (k : string) : bool := negb (String.eqb k "tfact") && negb (String.eqb k "rep2_tfluent").
+(* kinds the property speaks about; 'tfact' (TrajectoryParser performs NO type check on facts: not a place that checks
+   types, so the property's sentence does not speak about it) is compared with the model only.  Trajectory FLUENTS are
+   checked by the library, so they are judged, repeated arguments included (finding D31). *)
+Definition judged_kind (k : string) : bool := negb (String.eqb k "tfact").
 
 (* repeated arguments: accepted iff EVERY position's type is a subtype of the type required at that position
    ('zz' in the middle of the rep3m pattern has the type object) *)
 Definition spec_rep (c : case) (k : string) : string :=
   cube (c_names c) (rep_arity k)
        (fun t rs =>
-          let tys := if starts_with "rep3m" k then [t; "object"; t] else repeat t (rep_arity k) in
+          let tys := if starts_with "rep3m" k then [t; "object"; t]
+                     else if starts_with "rep3e" k then [t; t; "object"] else repeat t (rep_arity k) in
           bit (forallb (fun tr => closure_b (the_decls c) (fst tr) (snd tr)) (combine tys rs))).
 Definition spec_site (c : case) (k : string) : string :=
   if is_rep_kind k then spec_rep c k else matrix (c_names c) (fun x y => bit (closure_b (the_decls c) x y)).
@@ -364,8 +371,22 @@ Definition agree (c : case) : bool :=
   end.
 
 (* D30 (quantifiers never ranged over the domain's constants) is repaired in /repo: the constant-quantification kinds
-   cforall_pre / cforall_eff are ordinary cases now, judged like every other site.  No recorded finding class is left. *)
-Definition known_class (c : case) : bool := false.
+   cforall_pre / cforall_eff are ordinary cases now, judged like every other site.
+   D31 (open): TrajectoryParser.parse_grounded_numeric_fluent checks a fluent with a REPEATED argument through a dict keyed by the
+   object name.  Class: a site case that observes ONLY trajectory fluents with a repeated argument (kinds rep*_tfluent, generated in
+   cases of their own) and whose table / names / edges part satisfies the spec. *)
+Definition is_traj_repeat_kind (k : string) : bool :=
+  is_rep_kind k && String.eqb (rep_what k) "tfluent".
+Definition without_sites (c : case) : case :=
+  {| c_groups := c_groups c; c_trailing := c_trailing c; c_names := c_names c; c_types := c_types c; c_table := c_table c;
+     c_edges := c_edges c; c_sites := None; c_quant := None; c_raw := c_raw c |}.
+Definition known_class (c : case) : bool :=
+  match c_sites c, c_quant c with
+  | Some s, None =>
+      negb (match s_obs s with [] => true | _ => false end) &&
+      forallb (fun ko => is_traj_repeat_kind (fst ko)) (s_obs s) && spec_ok (without_sites c)
+  | _, _ => false
+  end.
 
 (* compact literal of a case without sites: the names the tables range over are the section's type names *)
 Definition tc (gs : list group) (tr : list string) (types : obs string) (table edges : string) : case :=
